@@ -7,6 +7,7 @@ import (
 	"fmt"
 	"sort"
 	"strings"
+	"sync"
 	"time"
 
 	"verif/mc"
@@ -83,6 +84,7 @@ type config struct {
 	wt, qt      int  // worker / platform queue timeouts in ticks (0: beyond every horizon)
 	prefix      []string
 	depth       map[string]int
+	shards      int      // thorough tier: processes the level-1 subtrees are split over
 	probes      []string // instance names probed against the trie at every boundary
 }
 
@@ -162,6 +164,10 @@ type actor struct {
 }
 
 type sys struct {
+	// mu guards model and bookkeeping against the truly concurrent threads
+	// of the free-running -race pass. It is never held across a call into
+	// the scheduler (i.e. never across a scheduling point).
+	mu    sync.Mutex
 	x     *mc.X
 	cfg   *config
 	depth int // maximal number of free letters
@@ -185,6 +191,7 @@ type sys struct {
 	outcome  []string
 
 	keyNames  map[string]string // invocation key -> model name
+	nameKeys  map[string]invocation.Key
 	platNames map[string]string // platform string -> model name
 	hostNames map[string]string // worker key -> actor name
 }
@@ -216,7 +223,7 @@ func platformName(p string) *remoteexecution.Platform { return platforms[p] }
 
 func build(x *mc.X, cfg *config, depth int) *sys {
 	s := &sys{x: x, cfg: cfg, depth: depth, idleStep: -1,
-		keyNames: map[string]string{}, platNames: map[string]string{}, hostNames: map[string]string{}}
+		keyNames: map[string]string{}, nameKeys: map[string]invocation.Key{}, platNames: map[string]string{}, hostNames: map[string]string{}}
 	s.ctx, s.cancel = context.WithCancel(context.Background())
 	s.clock = newFakeClock(x)
 	s.cas = newFakeCAS()
@@ -252,6 +259,10 @@ func build(x *mc.X, cfg *config, depth int) *sys {
 			s.keyNames[string(corrKey(e.corr))] = "c:" + e.corr
 			s.keyNames[string(toolKey(e.tool))] = "t:" + e.tool
 		}
+	}
+
+	for k, n := range s.keyNames {
+		s.nameKeys[n] = invocation.Key(k)
 	}
 
 	for _, d := range cfg.predeclared {
@@ -385,12 +396,14 @@ func (s *sys) registeredTask(a *actor) bool {
 func (s *sys) actorLoop(a *actor) {
 	s.x.ResetLocal(a.decl.name + ":idle")
 	for kind := range a.ch {
+		s.mu.Lock()
 		s.m.expire(s.clock.Now())
 		held := a.w.task
 		if _, q := s.m.registered(a.w); q == nil {
 			held = nil
 		}
 		s.m.preSync(a.w, kind)
+		s.mu.Unlock()
 		req := &remoteworker.SynchronizeRequest{
 			WorkerId:           map[string]string{"host": a.decl.host},
 			InstanceNamePrefix: a.decl.prefix,
@@ -412,8 +425,10 @@ func (s *sys) actorLoop(a *actor) {
 			}}}
 		}
 		resp, err := s.bq.Synchronize(s.ctx, req)
+		s.mu.Lock()
 		s.onSyncReturn(a, resp, err)
 		a.busy = false
+		s.mu.Unlock()
 		s.x.ResetLocal(a.decl.name + ":idle")
 	}
 }
@@ -452,6 +467,7 @@ func (s *sys) onSyncReturn(a *actor, resp *remoteworker.SynchronizeResponse, err
 // Client and operator calls (short-lived "op" threads)
 
 func (s *sys) doExecute(e *execDecl) {
+	s.mu.Lock()
 	now := s.clock.Now()
 	s.m.expire(now)
 	s.seq++
@@ -471,6 +487,7 @@ func (s *sys) doExecute(e *execDecl) {
 	if !s.broken {
 		want = s.m.execute(t)
 	}
+	s.mu.Unlock()
 
 	md, err := proto.Marshal(&remoteexecution.RequestMetadata{CorrelatedInvocationsId: e.corr, ToolInvocationId: e.tool})
 	if err != nil {
@@ -480,6 +497,8 @@ func (s *sys) doExecute(e *execDecl) {
 	defer cancel()
 	stream := &fakeStream{ctx: ctx, cancel: cancel}
 	stream.onFirst = func(op *longrunningpb.Operation) {
+		s.mu.Lock()
+		defer s.mu.Unlock()
 		var meta remoteexecution.ExecuteOperationMetadata
 		if err := op.Metadata.UnmarshalTo(&meta); err != nil {
 			panic(err)
@@ -500,6 +519,8 @@ func (s *sys) doExecute(e *execDecl) {
 		ActionDigest:    &remoteexecution.Digest{Hash: hash, SizeBytes: 100},
 		ExecutionPolicy: &remoteexecution.ExecutionPolicy{Priority: e.prio},
 	}, stream)
+	s.mu.Lock()
+	defer s.mu.Unlock()
 	if s.torn || s.broken {
 		return
 	}
@@ -528,6 +549,7 @@ func scqName(prefix, plat string, sc uint32) *buildqueuestate.SizeClassQueueName
 }
 
 func (s *sys) doDrain(d *drainDecl, add bool) {
+	s.mu.Lock()
 	s.m.expire(s.clock.Now())
 	q := s.m.scq(scqKey{pqKey{d.prefix, d.platform}, d.sc})
 	if q != nil {
@@ -537,6 +559,7 @@ func (s *sys) doDrain(d *drainDecl, add bool) {
 			delete(q.drains, d.name)
 		}
 	}
+	s.mu.Unlock()
 	req := &buildqueuestate.AddOrRemoveDrainRequest{SizeClassQueueName: scqName(d.prefix, d.platform, d.sc), WorkerIdPattern: d.pattern}
 	var err error
 	if add {
@@ -544,12 +567,15 @@ func (s *sys) doDrain(d *drainDecl, add bool) {
 	} else {
 		_, err = s.bq.RemoveDrain(s.ctx, req)
 	}
+	s.mu.Lock()
+	defer s.mu.Unlock()
 	if (err != nil) != (q == nil) && !s.torn {
 		s.failBoth("drain-call", "drain call %s add=%v returned %v, model has queue: %v", d.name, add, err, q != nil)
 	}
 }
 
 func (s *sys) doTerminate(t *termDecl) {
+	s.mu.Lock()
 	s.m.expire(s.clock.Now())
 	for _, pk := range s.m.sortedPqKeys() {
 		for _, q := range s.m.pqs[pk].scqs {
@@ -560,6 +586,7 @@ func (s *sys) doTerminate(t *termDecl) {
 			}
 		}
 	}
+	s.mu.Unlock()
 	s.bq.TerminateWorkers(s.ctx, &buildqueuestate.TerminateWorkersRequest{WorkerIdPattern: t.pattern})
 }
 
@@ -739,7 +766,11 @@ func (s *sys) checkBoundary() {
 			}
 			wq.seen = true
 			if msg := s.compareQueue(wq.q, &q); msg != "" {
-				s.failBoth("desync/"+strings.SplitN(msg, ":", 2)[0], "queue %v: %s", k, msg)
+				fp := strings.SplitN(msg, ":", 2)[0]
+				if !strings.Contains(fp, "eligible") {
+					fp = "desync/" + fp
+				}
+				s.failBoth(fp, "queue %v: %s", k, msg)
 				return
 			}
 		}
@@ -813,8 +844,11 @@ func (s *sys) compareQueue(q *mScq, iq *scheduler.VerifSeqSizeClassQueue) string
 		if mh != iw.CurrentTaskHash {
 			return fmt.Sprintf("worker-task: worker %s holds %q in the model, %q in the implementation", w.name, mh, iw.CurrentTaskHash)
 		}
-		if w.waiting(q) != iw.Parked {
-			return fmt.Sprintf("parked: worker %s waiting for work: model %v impl %v", w.name, w.waiting(q), iw.Parked)
+		if w.waiting(q) && !iw.Parked {
+			return fmt.Sprintf("eligible-worker-not-offered: worker %s is blocked in Synchronize, undrained and not terminating, but it is not among the idle synchronizing workers a new task would be handed to", w.name)
+		}
+		if !w.waiting(q) && iw.Parked {
+			return fmt.Sprintf("ineligible-worker-offered: worker %s (in call %v, drained %v, terminating %v) is among the idle synchronizing workers new tasks are handed to", w.name, w.inCall, w.drained(q), w.terminating)
 		}
 		if w.hasLast != iw.HasLastInvocation || pathStr(w.lastPath) != pathStr(s.invPath(iw.LastInvocation)) {
 			return fmt.Sprintf("last-invocation: worker %s model %v/%v impl %v/%v", w.name, w.hasLast, w.lastPath, iw.HasLastInvocation, s.invPath(iw.LastInvocation))
